@@ -140,9 +140,9 @@ Theorem cond_first_true_only : forall m n st sc c body rest t st1,
   (t = false -> forall body', eval m (S n) st sc (ECond ((c, body') :: rest)) = ev_cond m (eval m n) st1 sc rest).
 Proof.
   intros m n st sc c body rest t st1 H. unfold ev_test, bind in H. simpl. unfold bind, bindo.
-  destruct (eval m n st sc c) as [[v|er] s]; [|discriminate]. simpl in H.
-  destruct (truthy m v) as [b|er]; [|discriminate]. inversion H; subst.
-  split; intros Ht x; subst; reflexivity.
+  destruct (eval m n st sc c) as [[v|er] s]; [|discriminate]. unfold truthy in *. simpl in H.
+  inversion H; subst.
+  split; intros Ht x; rewrite Ht; reflexivity.
 Qed.
 (* case: the clause found by the key decides; clause lists that select the same body give the same evaluation *)
 Theorem case_selected_only : forall m n st sc k cls cls' dflt,
@@ -178,8 +178,8 @@ Proof.
   split; [|split; [|split]].
   - intros st1 H; rewrite H; reflexivity.
   - intros st1 H; rewrite H; reflexivity.
-  - intros v st1 r H O; rewrite H; simpl; rewrite O; reflexivity.
-  - intros v st1 H O; rewrite H; simpl; rewrite O; reflexivity.
+  - intros v st1 r H O; rewrite H; cbn [bind]; rewrite O; reflexivity.
+  - intros v st1 H O; rewrite H; cbn [bind]; rewrite O; reflexivity.
 Qed.
 
 (* ---------------------------------------------------------------------------------- let in parallel, let* in sequence *)
